@@ -197,6 +197,9 @@ def make_container(kind, ops):
     if kind == 'single':
         assert len(ops) == 1
         return ops[0]
+    if kind == 'udict':
+        # a dict whose keys are inserted in NON-sorted order: pytree (sorted-key) order is the reverse of the insertion order
+        return {f'k{len(ops) - 1 - i}': op for i, op in enumerate(ops)}
     if kind == 'lnest':
         # nested lists: the first two entries share an inner list
         return [list(ops[:2])] + list(ops[2:]) if len(ops) > 2 else [list(ops)]
@@ -390,6 +393,8 @@ def container_get(kind, cont, i, n):
         return cont['u'] if i == 0 else cont['v'][i - 1]
     if kind == 'single':
         return cont
+    if kind == 'udict':
+        return cont[f'k{n - 1 - i}']
     if kind == 'lnest':
         return cont[0][i] if (i < 2 or n <= 2) else cont[i - 1]
     raise ValueError(kind)
